@@ -103,12 +103,56 @@ def r1(ctx):
               ctx.construct(ef, text="guard before cache"), "a factor can be cached without the kind guard having run")
     en = P.func(MAT + "._encode_evaled_factor")
     rec = [s for s in ast.walk(en.node) if isinstance(s, ast.Assign) and norm(s.targets[0]) == "spec.encoder_state[factor.expr]"]
+    rec = [r_ for r_ in rec if not (isinstance(P.parent(r_), ast.If) and "factor.expr not in spec.encoder_state" in norm(P.parent(r_).test))]
     ok = len(rec) == 1 and norm(rec[0].value) == "(factor.metadata.kind, encoder_state)"
     ctx.check(ok, "C09.R1", "the recorded encoder state is (kind, state) keyed by the factor expression", en.where, ctx.construct(en, text="record kind"),
               f"records `{norm(rec[0].value) if rec else None}`")
+    encoder_state_recorded_on_every_path(ctx, "C09.R1")
     ok = "encoder_state: dict[str, Any] = spec.encoder_state.get(factor.expr, [None, {}])[1]" in norm(en.node)
     ctx.check(ok, "C09.R1", "encoders receive the recorded state of the same factor", en.where, ctx.construct(en, text="reuse state"),
               "expected encoder_state = spec.encoder_state.get(factor.expr, [None, {}])[1]")
+
+
+def encoder_state_recorded_on_every_path(ctx, rule: str):
+    """Every path through _encode_evaled_factor that encodes (or re-uses a cached encoding of) a not-yet-encoded factor records that
+    factor's encoder state in the spec being built: either the unconditional store after encoding, or the cache-hit fallback
+    `if factor.expr not in spec.encoder_state …: spec.encoder_state[factor.expr] = <cached state>`."""
+    P = ctx.project
+    f = P.func(MAT + "._encode_evaled_factor")
+
+    def prune(test):
+        t, neg = count_negations(test)
+        if norm(t) == "factor.metadata.encoded":
+            return (neg % 2 == 1)  # analyse the not-encoded case
+        return None
+
+    cfg = CFG(f.node, prune=prune)
+
+    def stores(st) -> bool:
+        return isinstance(st, ast.Assign) and any(isinstance(t, ast.Subscript) and norm(t.value) == "spec.encoder_state" and norm(t.slice) == "factor.expr" for t in st.targets)
+
+    def gate(st) -> bool:
+        if stores(st):
+            return True
+        if isinstance(st, ast.If) and "factor.expr not in spec.encoder_state" in norm(st.test) and any(stores(x) for x in st.body):
+            return True  # the fallback: a no-op exactly when the state is already recorded
+        return False
+
+    ctx.look()
+    w = cfg.must_pass(gate)
+    ctx.check(w is None, rule, "every part's spec records the encoder state of each factor it encodes, also when the encoding comes from the cache", f.where,
+              ctx.construct(f, text="encoder state on cache hit"),
+              "a returning path re-uses a cached encoding without recording spec.encoder_state[factor.expr]: the spec of a later part of a structured formula cannot "
+              "regenerate its own part (levels are no longer pinned, one generated column is copied into every recorded level column)", w)
+    # the fallback must take the state recorded when the factor was encoded (same expr key)
+    fb = [st for st in ast.walk(f.node) if isinstance(st, ast.If) and "factor.expr not in spec.encoder_state" in norm(st.test)]
+    for st in fb:
+        a = [x for x in st.body if stores(x)]
+        src = norm(a[0].value) if a else ""
+        rec = [x for x in ast.walk(f.node) if isinstance(x, ast.Assign) and norm(x.targets[0]).endswith("[factor.expr]") and norm(x.targets[0]) != "spec.encoder_state[factor.expr]"]
+        ok = bool(a) and any(norm(r.targets[0]) == src for r in rec) and all(norm(r.value) in ("spec.encoder_state[factor.expr]", "(factor.metadata.kind, encoder_state)") for r in rec if norm(r.targets[0]) == src)
+        ctx.check(ok, rule, "the cache-hit fallback copies the state recorded when the factor was first encoded", f.module.line(st), ctx.construct(f, text="fallback source"),
+                  f"fallback stores `{src}`, which is not filled from the state recorded at encoding time")
 
 
 def r2(ctx):
